@@ -140,6 +140,15 @@ Theorem C01_assembly_roundtrip_refuted :
 Proof. exact assembly_roundtrip_refuted. Qed.
 Print Assumptions C01_assembly_roundtrip_refuted.
 
+(** the guard in syntactic form, for the exact decode rule of word-like strings: a name containing any character
+    other than a digit, '-', 'e', 'E' (hg19, mm10, GRCh38, T2T-CHM13v2 ...) and different from true/false/null is
+    returned unchanged by info() *)
+Theorem C01_assembly_name_safe : forall s : string,
+  has_bad s = true -> s <> "true"%string -> s <> "false"%string -> s <> "null"%string ->
+  info_assembly json_word (Some s) = inr s.
+Proof. exact assembly_name_safe. Qed.
+Print Assumptions C01_assembly_name_safe.
+
 (** non-vacuity *)
 Example ex_C01_array_loader :
   array_loader [[1;0;2];[3;4;0];[0;5;6]] 2 = [[((0,0),1); ((0,2),2); ((1,1),4)]; [((2,2),6)]] /\
@@ -151,6 +160,9 @@ Example ex_C01_sparse_full :
 Proof. vm_compute. repeat split. Qed.
 Example ex_C01_frame :
   sort_rows [((1,1),3); ((0,2),2); ((0,0),1)] = [((0,0),1); ((0,2),2); ((1,1),3)].
+Proof. reflexivity. Qed.
+Example ex_C01_safe_names :
+  map has_bad ["hg19"; "mm10"; "T2T-CHM13v2"; "123"; "1e5"; "-7"]%string = [true; true; true; false; false; false].
 Proof. reflexivity. Qed.
 Example ex_C01_words :
   map json_word ["123"; "-0"; "0123"; "1e5"; "true"; "null"; "hg19"; "NaN"; "e5"]%string =
